@@ -96,6 +96,13 @@ def timeUUIDWith (t clk : Nat) (nd : List UInt8) : List UInt8 :=
 def stampV4 (u : List UInt8) : List UInt8 :=
   (u.set 6 ((byteAt u 6 &&& 0x0F) ||| 0x40)).set 8 ((byteAt u 8 &&& 0x3F) ||| 0x80)
 
+/-- `RandomUUID()` as a function of the bytes `rand.Reader` can still deliver: `io.ReadFull(rand.Reader, u[:])`
+    fails unless 16 bytes arrive (then `u`, partly filled and NOT stamped, is returned with the error — and
+    `MustRandomUUID` panics); otherwise the first 16 bytes are stamped -/
+def randomUUID (avail : List UInt8) : Bool × List UInt8 :=
+  if 16 ≤ avail.length then (true, stampV4 (avail.take 16))
+  else (false, avail ++ List.replicate (16 - avail.length) 0)
+
 /-! ### time ↔ timestamp -/
 
 /-- `time.Date(1582, October, 15, 0,0,0,0, UTC).Unix()` -/
